@@ -544,6 +544,77 @@ impl<'a, 'b, 'ast> Visit<'ast> for Collector<'a, 'b> {
         self.edits.push((r.start, r.end, String::new()));
     }
 
+    fn visit_block(&mut self, b: &'ast syn::Block) {
+        // R33 (sections "guard G acquire" / "guard G release"): a lock guard `let [mut] G = L.write().unwrap();` (or `.read()`) becomes
+        //   `let __lk_G = L; let mut G = <acquire>;` (the protected value, held by value, as Verus's own lock API does), and the guard's
+        //   drop -- implicit in Rust at every exit of the enclosing block -- is made explicit: `<release>` is inserted before each
+        //   `continue` / `break` / `return` that leaves the block after the let, and at the block's end if it can fall through.
+        for (k, st) in b.stmts.iter().enumerate() {
+            if let Stmt::Local(l) = st {
+                if let (syn::Pat::Ident(pi), Some(init)) = (&l.pat, &l.init) {
+                    let g = pi.ident.to_string();
+                    if let (Some(acq), Some(rel)) = (self.rw.section(&format!("guard {g} acquire")), self.rw.section(&format!("guard {g} release"))) {
+                        let lock = match &*init.expr {
+                            Expr::MethodCall(u) if u.method == "unwrap" => match &*u.receiver {
+                                Expr::MethodCall(w) if (w.method == "write" || w.method == "read") && w.args.is_empty() => Some(&*w.receiver),
+                                _ => None,
+                            },
+                            _ => None,
+                        };
+                        if let Some(lock) = lock {
+                            let at = st.span().byte_range().start;
+                            self.edits.push((at, at, format!("let __lk_{g} = {}; //@p\n", self.rw.render_expr(lock))));
+                            let r = init.expr.span().byte_range();
+                            self.edits.push((r.start, r.end, format!("\n{}\n", mark(acq).trim_end())));
+                            self.rw.count("R33");
+                            struct Exits<'x> { depth: usize, out: Vec<(usize, usize, String)>, rel: &'x str, src: &'x str }
+                            impl<'x, 'y> Visit<'y> for Exits<'x> {
+                                fn visit_expr(&mut self, e: &'y Expr) {
+                                    match e {
+                                        Expr::Closure(_) => {}
+                                        Expr::Loop(_) | Expr::While(_) | Expr::ForLoop(_) => { self.depth += 1; visit::visit_expr(self, e); self.depth -= 1; }
+                                        Expr::Break(_) | Expr::Continue(_) if self.depth == 0 => {
+                                            let r = e.span().byte_range();
+                                            self.out.push((r.start, r.end, format!("{{\n{}\n{} }}", self.rel, &self.src[r.clone()])));
+                                        }
+                                        Expr::Return(_) => {
+                                            let r = e.span().byte_range();
+                                            self.out.push((r.start, r.end, format!("{{\n{}\n{} }}", self.rel, &self.src[r.clone()])));
+                                        }
+                                        _ => visit::visit_expr(self, e),
+                                    }
+                                }
+                            }
+                            let relm = mark(rel);
+                            let mut ex = Exits { depth: 0, out: vec![], rel: relm.trim_end(), src: self.rw.src };
+                            for later in &b.stmts[k + 1..] { ex.visit_stmt(later); }
+                            self.edits.extend(ex.out);
+                            fn diverges(s: &Stmt) -> bool {
+                                fn ediv(e: &Expr) -> bool {
+                                    match e {
+                                        Expr::Break(_) | Expr::Continue(_) | Expr::Return(_) => true,
+                                        Expr::If(i) => match &i.else_branch {
+                                            Some((_, eb)) => i.then_branch.stmts.last().map(diverges).unwrap_or(false) && ediv(eb),
+                                            None => false,
+                                        },
+                                        Expr::Block(bl) => bl.block.stmts.last().map(diverges).unwrap_or(false),
+                                        _ => false,
+                                    }
+                                }
+                                match s { Stmt::Expr(e, _) => ediv(e), _ => false }
+                            }
+                            if !b.stmts.last().map(diverges).unwrap_or(false) {
+                                let end = b.span().byte_range().end - 1;
+                                self.edits.push((end, end, format!("\n{}\n", relm.trim_end())));
+                            }
+                        }
+                    }
+                }
+            }
+        }
+        visit::visit_block(self, b);
+    }
+
     fn visit_path(&mut self, p: &'ast syn::Path) {
         // a key with `::` replaces the whole path (`Self::from` -> `Self::from_pair`: picks one overload of an overloaded name)
         let full: String = p.segments.iter().map(|s| s.ident.to_string()).collect::<Vec<_>>().join("::");
@@ -1497,6 +1568,18 @@ fn extract_item(repo: &Path, source: &str, sel: &str, opts: &BTreeMap<String, St
                                 }
                             }
                         }
+                    }
+                }
+            }
+            fail("anchor-lost", format!("item {sel} not found"))
+        }
+        "const" if parts.len() == 2 => {
+            // module-level constant
+            for it in &items {
+                if let Item::Const(c) = it {
+                    if c.ident == parts[1] {
+                        let e = &src[c.expr.span().byte_range()];
+                        return Ok((format!("pub const {}: {} = {};", c.ident, subst_type(&c.ty, &subst), e), c.span().start().line, c.span().end().line));
                     }
                 }
             }
